@@ -24,6 +24,7 @@ import Alos2.Proofs.ProductOpen
 import Alos2.Proofs.ToXarray
 import Alos2.Proofs.ProductCached
 import Alos2.Proofs.ProductCached2
+import Alos2.Proofs.GroupNameChars
 
 namespace Alos2.C13
 
@@ -110,20 +111,27 @@ theorem product_factors (fs : Files) (rpc : Nat) :
              imagery := groups.foldl (fun acc kv => assocSet acc kv.1 kv.2) [] }) :=
   openProduct_eq_head fs rpc
 
+/-- the image group name `filename_to_groupname` builds never contains '/' (so `Group.name` of a group with that path is the path
+    itself, and `/imagery/<name>` has exactly one more level): a fuel induction over the backtracking matcher shows that every
+    captured text consists of characters the regex's atoms accept, and no atom of the file-name / scan-info regexes accepts '/' -/
+theorem group_name_has_no_slash (s : String) (g : String) (h : groupName s = .ok g) : '/' ∉ g.toList :=
+  groupName_noslash s g h
+
 /-- the CODEC-VIEW product (what the cache-first whole-product model `Model/ProductCached.lean` returns, and what C07 / C09 / C10
     `product_*` compare against) IS this product: if the whole-product model opens and every image group can be bridged
-    (`bridge_total` for real files) and no group name contains '/', the uncached codec-view open succeeds with the same root
+    (`bridge_total` for real files) — group names never contain '/' (`group_name_has_no_slash`: capture soundness of the regex
+    matcher as far as needed) —, the uncached codec-view open succeeds with the same root
     attributes, summary, `/metadata`, and the same image groups under the same names in the same order -/
 theorem codec_view_is_product (fr : FloatRepr) (root : String) (fs : Files) (rpc : Nat) (p : Product)
     (h : openProduct fs rpc = .ok p)
     (ra : KVs Leaf) (su : List (String × SGroup)) (me : Grp Leaf) (imgs : List String)
     (hh : openProductHead fs = .ok (ra, su, me, imgs))
     (hbr : ∀ name ∈ imgs, ∀ b gname g, fs.get name = some b → openImageFile b name rpc = .ok (gname, g) →
-      (bridge fr root name gname g).isSome)
-    (hslash : ∀ name ∈ imgs, ∀ gname, groupName name = .ok gname → '/' ∉ gname.toList) :
+      (bridge fr root name gname g).isSome) :
     ∃ pc, openProductC fr root fs rpc = .ok pc ∧ pc.rootAttrs = p.rootAttrs ∧ pc.summary = p.summary ∧ pc.metadata = p.metadata ∧
       pc.imagery.map Prod.fst = p.imagery.map Prod.fst :=
-  openProductC_eq_openProduct fr root fs rpc p h ra su me imgs hh hbr hslash
+  openProductC_eq_openProduct fr root fs rpc p h ra su me imgs hh hbr
+    (fun _ _ gname hg => groupName_noslash _ gname hg)
 
 /-- … and an error of the whole-product model is the error of the codec-view open (given that every image that opens can be
     bridged — otherwise the codec view fails earlier, at that image) -/
